@@ -97,25 +97,26 @@ type EzPart struct {
 }
 
 type EzSpec struct {
-	Format    string   `json:"format"` // json | yaml | toml | cue
-	Entry     string   `json:"entry"`  // ext (FileExtensionDecoderConfigEnvFlag) | direct (JSONConfigEnvFlag & co)
-	Watch     bool     `json:"watch"`
-	PathFrom  string   `json:"path_from"` // none | default | env | flag
-	DecoyFrom string   `json:"decoy_from,omitempty"`
-	FileState string   `json:"file_state"` // ok | missing
-	Defaults  EzPart   `json:"defaults"`
-	Env       EzPart   `json:"env"`
-	Flags     EzPart   `json:"flags"`
-	File      EzPart   `json:"file"`
-	Decoy     EzPart   `json:"decoy"`
-	Kebab     bool     `json:"kebab,omitempty"`    // Params.FileFieldNameEncoder: the file's keys are kebab-case
-	Race      bool     `json:"race"`               // the writer starts while the entry point is still running
-	CmdLine   string   `json:"cmd_line,omitempty"` // "": a flag source of the harness's own; "default": Params.FlagSource left nil (the process's command line); "prereg": likewise, and the application has registered one of the flags itself beforehand
-	Linked    bool     `json:"linked,omitempty"`   // the config path is a symlink to a file with another name and extension; new versions are published by re-pointing it
-	Flatten   bool     `json:"flatten,omitempty"`  // Params.FlattenAnonymousFields
-	EmbLeaf   bool     `json:"emb_leaf,omitempty"` // YAML files may set the embedded struct's leaf
-	Writes    []EzPart `json:"writes,omitempty"`
-	WriteHow  []string `json:"write_how,omitempty"` // rename | rewrite | delete-create
+	Format     string   `json:"format"` // json | yaml | toml | cue
+	Entry      string   `json:"entry"`  // ext (FileExtensionDecoderConfigEnvFlag) | direct (JSONConfigEnvFlag & co)
+	Watch      bool     `json:"watch"`
+	PathFrom   string   `json:"path_from"` // none | default | env | flag
+	DecoyFrom  string   `json:"decoy_from,omitempty"`
+	FileState  string   `json:"file_state"` // ok | missing
+	Defaults   EzPart   `json:"defaults"`
+	Env        EzPart   `json:"env"`
+	Flags      EzPart   `json:"flags"`
+	File       EzPart   `json:"file"`
+	Decoy      EzPart   `json:"decoy"`
+	Kebab      bool     `json:"kebab,omitempty"`       // Params.FileFieldNameEncoder: the file's keys are kebab-case
+	Race       bool     `json:"race"`                  // the writer starts while the entry point is still running
+	CmdLine    string   `json:"cmd_line,omitempty"`    // "": a flag source of the harness's own; "default": Params.FlagSource left nil (the process's command line); "prereg": likewise, and the application has registered one of the flags itself beforehand
+	Linked     bool     `json:"linked,omitempty"`      // the config path is a symlink to a file with another name and extension; new versions are published by re-pointing it
+	Flatten    bool     `json:"flatten,omitempty"`     // Params.FlattenAnonymousFields
+	EmbLeaf    bool     `json:"emb_leaf,omitempty"`    // YAML files may set the embedded struct's leaf
+	WatchFlags bool     `json:"watch_flags,omitempty"` // Params.FlagSource is a watching source of the application's own: it reports new flag values after the entry point has returned
+	Writes     []EzPart `json:"writes,omitempty"`
+	WriteHow   []string `json:"write_how,omitempty"` // rename | rewrite | delete-create
 }
 
 func genEz(seed uint64, faulty bool) *Scenario {
@@ -259,6 +260,9 @@ func genEz(seed uint64, faulty bool) *Scenario {
 		}
 		e.Race = g.pct(50)
 	}
+	if len(e.Writes) == 0 && e.CmdLine == "" && g.pct(25) {
+		e.WatchFlags = true
+	}
 	sc.Ez = e
 	switch g.r.IntN(5) {
 	case 0:
@@ -267,6 +271,20 @@ func genEz(seed uint64, faulty bool) *Scenario {
 		sc.Bias.Starve = []string{"ez", "writer", "dials.go", "file.go"}[g.r.IntN(4)]
 		sc.Bias.StarveTill = g.in(20, 300)
 	}
+	return sc
+}
+
+// genEzC09: an ez scenario for C09 - a watching flag source of the
+// application's own, no writer; half of them without a config file.
+func genEzC09(seed uint64, faulty bool) *Scenario {
+	sc := genEz(seed, faulty)
+	sc.Prop = "C09"
+	e := sc.Ez
+	e.WatchFlags, e.Writes, e.WriteHow, e.Race, e.CmdLine = true, nil, nil, false, ""
+	if seed%2 == 0 {
+		e.PathFrom, e.DecoyFrom = "none", ""
+	}
+	delete(e.Flags.Leaves, "ez_forbidden")
 	return sc
 }
 
@@ -418,7 +436,10 @@ type ezRun struct {
 	first      *CfgEz
 	firstTaken bool
 	rendered   map[string]bool // every complete content that was ever written
-	tornAt     int             // step of the first read that obtained bytes no writer wrote as a whole (0: none)
+	wflags     *ezWatchFlags
+	flagOK     []string // values of ez_c whose update was acknowledged: OnNewConfig is owed for each
+	flagErrs   []string // error texts OnWatchedError is owed
+	tornAt     int      // step of the first read that obtained bytes no writer wrote as a whole (0: none)
 }
 
 type ezCB struct {
@@ -548,6 +569,15 @@ func (r *ezRun) flagArgs() []string {
 
 func runEz(sc *Scenario, res *Result, keepLog bool) {
 	e := sc.Ez
+	if e.WatchFlags {
+		// the flags layer changes during the run: the model works on a copy
+		ec := *e
+		ec.Flags.Leaves = map[string]string{}
+		for k, v := range e.Flags.Leaves {
+			ec.Flags.Leaves[k] = v
+		}
+		e = &ec
+	}
 	r := &ezRun{sc: sc, e: e, probes: map[string]int{}, contents: map[uint64]*EzPart{}}
 	curEz = r
 	defer func() { curEz = nil }()
@@ -612,6 +642,10 @@ func runEz(sc *Scenario, res *Result, keepLog bool) {
 				panic(ferr)
 			}
 			params.FlagSource = fs
+			if e.WatchFlags {
+				r.wflags = &ezWatchFlags{inner: fs}
+				params.FlagSource = r.wflags
+			}
 		} else {
 			// the default flag source: the process's command line. (A private,
 			// unparsed CommandLine and os.Args for this run; restored afterwards.)
@@ -656,6 +690,14 @@ func runEz(sc *Scenario, res *Result, keepLog bool) {
 			}
 		}
 	})
+	if e.WatchFlags {
+		r.clients++
+		s.Spawn("flagwatch", func() {
+			defer func() { r.done++ }()
+			simrt.YieldWhen("await-ez-return", func() bool { return r.firstTaken })
+			r.flagUpdates()
+		})
+	}
 	if len(e.Writes) > 0 {
 		r.clients++
 		s.Spawn("writer", func() {
@@ -721,6 +763,7 @@ func runEz(sc *Scenario, res *Result, keepLog bool) {
 		}
 		r.fail("stuck", "the entry point or the writer did not finish (%s)\n%s", reason, strings.Join(lines, "\n"))
 	} else {
+		r.flagOracles()
 		r.oracles()
 	}
 	r.cancel()
@@ -745,6 +788,128 @@ func runEz(sc *Scenario, res *Result, keepLog bool) {
 	res.Log = s.Log
 }
 
+// ezWatchFlags is a flag source of the application's own that also watches:
+// it hands out what the wrapped flag set parsed and can report new values later.
+type ezWatchFlags struct {
+	inner *flag.Set
+	wa    dials.WatchArgs
+	typ   *dials.Type
+}
+
+func (w *ezWatchFlags) Value(ctx context.Context, t *dials.Type) (reflect.Value, error) {
+	return w.inner.Value(ctx, t)
+}
+
+func (w *ezWatchFlags) Watch(_ context.Context, t *dials.Type, wa dials.WatchArgs) error {
+	w.wa, w.typ = wa, t
+	return nil
+}
+
+// flagUpdates runs once the entry point has returned a Dials: from then on
+// verification is on and the global callbacks are delivered, whichever way
+// the entry point went (with or without a config file).
+func (r *ezRun) flagUpdates() {
+	if r.d == nil || r.wflags == nil || r.wflags.wa == nil {
+		return
+	}
+	P := r.sc.Prop
+	w := r.wflags
+	value := func(extra ...string) reflect.Value {
+		fs, err := flag.NewSetWithArgs(flag.DefaultFlagNameConfig(), r.defaults(), append(r.flagArgs(), extra...))
+		if err != nil {
+			panic(err)
+		}
+		v, err := fs.Value(r.ctx, w.typ)
+		if err != nil {
+			panic(err)
+		}
+		return v
+	}
+	report := func(v reflect.Value) error {
+		ctx, cancel := context.WithTimeout(r.ctx, time.Hour)
+		defer cancel()
+		return w.wa.BlockingReportNewValue(ctx, v)
+	}
+	// 1. a valid update
+	c1 := strconv.Itoa(900000 + int(r.sc.Seed%1000))
+	if err := report(value("--ez_c=" + c1)); err != nil {
+		r.fail(P+".ez-update", "after the entry point returned, a valid update from the watching flag source was refused: %v", err)
+	} else {
+		r.e.Flags.Leaves["ez_c"] = c1
+		r.flagOK = append(r.flagOK, c1)
+		if got := r.d.View().C; strconv.Itoa(got) != c1 {
+			r.fail(P+".ez-update", "a blocking report of the flag source returned nil but the view has ez_c=%d, not %s", got, c1)
+		}
+	}
+	r.probes["flag-source-update-after-return"]++
+	// 2. an update Verify rejects: verification is on after every successful return
+	before := r.d.View()
+	err := report(value("--ez_c=1", "--ez_forbidden=true"))
+	switch {
+	case err == nil:
+		r.fail(P+".ez-verification-on", "the entry point returned successfully, yet an update that Verify rejects was acknowledged and installed: verification was never switched on (view %+v)", *r.d.View())
+	case !errors.Is(err, errVerify):
+		r.fail(P+".ez-verification-on", "an update that Verify rejects came back with %v", err)
+	default:
+		r.flagErrs = append(r.flagErrs, "forbidden=true")
+		if r.d.View() != before {
+			r.fail(P+".ez-verification-on", "a rejected update changed the view")
+		}
+	}
+	r.probes["flag-source-invalid-update-after-return"]++
+	// 3. an error of the source
+	tag := fmt.Sprintf("flag-source-error-%d", r.sc.Seed%1000)
+	ctx, cancel := context.WithTimeout(r.ctx, time.Hour)
+	if err := w.wa.ReportError(ctx, errors.New(tag)); err == nil {
+		r.flagErrs = append(r.flagErrs, tag)
+	}
+	cancel()
+	// 4. EnableVerification by the application itself: already on, returns what is installed
+	ctx, cancel = context.WithTimeout(r.ctx, time.Hour)
+	cfg, _, eerr := r.d.EnableVerification(ctx)
+	cancel()
+	if eerr != nil {
+		r.fail(P+".ez-verification-on", "EnableVerification after the entry point returned failed although the installed config verifies: %v", eerr)
+	} else if cfg != nil && cfg != r.d.View() {
+		r.fail(P+".ez-verification-on", "EnableVerification returned a config that is not the installed one")
+	}
+	// 5. valid again (the rejected value leaves the slot)
+	c2 := strconv.Itoa(910000 + int(r.sc.Seed%1000))
+	if err := report(value("--ez_c=" + c2)); err != nil {
+		r.fail(P+".ez-update", "a valid update after a rejected one was refused: %v", err)
+	} else {
+		r.e.Flags.Leaves["ez_c"] = c2
+		r.flagOK = append(r.flagOK, c2)
+	}
+}
+
+// flagOracles: evaluated once the run has settled (the callbacks are asynchronous).
+func (r *ezRun) flagOracles() {
+	P := r.sc.Prop
+	for _, c := range r.flagOK {
+		found := false
+		for _, cb := range r.cbs {
+			if cb.kind == "new" && cb.new != nil && strconv.Itoa(cb.new.C) == c {
+				found = true
+			}
+		}
+		if !found {
+			r.fail(P+".ez-callbacks", "OnNewConfig was never called for the version with ez_c=%s, installed after the entry point had returned (global callbacks are withheld only until verification is enabled)", c)
+		}
+	}
+	for _, tag := range r.flagErrs {
+		found := false
+		for _, cb := range r.cbs {
+			if cb.kind == "err" && cb.err != nil && (strings.Contains(cb.err.Error(), tag) || tag == "forbidden=true" && errors.Is(cb.err, errVerify)) {
+				found = true
+			}
+		}
+		if !found {
+			r.fail(P+".ez-callbacks", "OnWatchedError was never called for %q after the entry point had returned", tag)
+		}
+	}
+}
+
 func ezEqual(a, b *CfgEz) bool { return reflect.DeepEqual(*a, *b) }
 
 // plausible: the ids of file contents that were at the path at some point of
@@ -764,6 +929,11 @@ func (r *ezRun) plausibleFiles(untilStep int) []*EzPart {
 
 func (r *ezRun) oracles() {
 	e := r.e
+	// what the entry point returned is judged by the flags it was started
+	// with; what is visible in the end by the flags reported last
+	flagsNow := e.Flags
+	e.Flags = r.sc.Ez.Flags
+	defer func() { e.Flags = flagsNow }()
 	hasPath := e.PathFrom != "none"
 	r.probes["path-from-"+e.PathFrom]++
 	// a file that sets nothing carries no stamp: in runs that have one, the
@@ -818,8 +988,8 @@ func (r *ezRun) oracles() {
 			}
 		case r.err != nil:
 			r.fail("C18.first-config", "no config file is configured and the stack verifies, but the entry point failed: %v", r.err)
-		case !ezEqual(r.d.View(), want):
-			r.fail("C18.first-config", "first config differs from defaults < env < flags\n got:  %+v\n want: %+v", *r.d.View(), *want)
+		case !ezEqual(r.first, want):
+			r.fail("C18.first-config", "first config differs from defaults < env < flags\n got:  %+v\n want: %+v", *r.first, *want)
 		}
 		r.probes["no-file-path"]++
 		return
@@ -891,6 +1061,7 @@ func (r *ezRun) oracles() {
 		r.probes["valid-only-with-file"]++
 	}
 	// (e) later changes
+	e.Flags = flagsNow
 	if e.Watch && len(r.written) > 0 {
 		last := r.contents[r.written[len(r.written)-1]]
 		view := r.d.View()
@@ -904,7 +1075,7 @@ func (r *ezRun) oracles() {
 			r.probes["final-content-invalid"]++
 		}
 	}
-	if !e.Watch {
+	if !e.Watch && !e.WatchFlags {
 		// the monitor and the callback goroutine are gone once the entry point returned
 		for _, t := range r.sim.Tasks() {
 			if t.Lib && t.State != simrt.Exited {
